@@ -119,6 +119,8 @@ def oracle_reassign(ctx, best, scores, result, where):
 
 
 def worker_setup(ctx):
+    from vf import neutral
+    neutral.enable(ctx)      # neutral prefixes after conversion in half of the cases
     import plinio.methods.mps.utils as U
     orig = U._reassign_precisions
 
